@@ -5,6 +5,7 @@ A=${1:-1}; B=${2:-999}
 for d in $(ls -d seeded/S* | sort -t S -k2 -n); do
   n=${d##*S}; [ "$n" -ge "$A" ] && [ "$n" -le "$B" ] || continue
   prop=$(/venv/bin/python -c "import json,sys; print(json.load(open('$d/meta.json'))['breaks_property'])")
+  if /venv/bin/python -c "import json,sys; sys.exit(0 if json.load(open('$d/meta.json')).get('applies_to_head', True) else 1)"; then :; else echo "S$n $prop SKIPPED (meta.json: applies_to_head false)"; continue; fi
   WT=/tmp/vmon_regress_wt_$$
   git -C /repo worktree remove --force "$WT" >/dev/null 2>&1
   git -C /repo worktree add -q --detach "$WT" HEAD || exit 9
